@@ -34,5 +34,9 @@ CONFIG = dict(
         dict(test="TestC16Regression", kind="plain"),
         dict(test="TestC16Timeline", quick=6, thorough=608, shards=16),
         dict(test="TestC16ManyPeers", quick=12, thorough=640, shards=16),
+        # every pending item is uninteresting for longer than the bound, then interesting again without a new announcement (T2)
+        dict(test="TestC16InterestFlip", quick=6, thorough=320, shards=16),
+        # more receipts than MaxQueuedBatches while the loop is held inside a slow OnlyInterested callback (T1)
+        dict(test="TestC16ReceiptBurst", quick=6, thorough=320, shards=16),
     ],
 )
